@@ -6,6 +6,8 @@
    [Stuck] = the model's loop fuel ran out.  [bytes s] = every element is in 0..255; [valid_utf8] is Lib.Utf8's
    utf8.ValidString; [maxint] = 2^63-1, [two63] = 2^63; [zlen s <= maxint]: Go strings are shorter than 2^63 bytes. *)
 From Coq Require Import List ZArith Bool.
+(* the translator tie (last theorems): imported first, so that Ret / Panic / bind / zlen below are Model.Strs's *)
+From V Require Import Lib.GoSem Gen.StrsCode Run.C17Code Proofs.StrsCode Proofs.StrsCodeRun.
 From V Require Import Lib.Utf8 Model.Strs Run.C17 Proofs.StrsBasic Proofs.StrsMask Proofs.StrsRunes Proofs.StrsCase Proofs.StrsRun.
 Import ListNotations.
 Local Open Scope Z_scope.
@@ -121,3 +123,48 @@ Print Assumptions c17_run_model_expected.
 Theorem c17_judge_accepts_model : forall op r e, case_wf op r -> expected op r = Some e -> spec_ok op r (run_model op r) = true.
 Proof. exact spec_ok_model. Qed.
 Print Assumptions c17_judge_accepts_model.
+
+(* ---------------------------------------------------------------------------------------------------------------
+   The translator tie (gen/TRANSLATOR.md, area StrsCode): each function of coq/Gen/StrsCode.v — GENERATED from the current
+   strz/strs.go by gen/trans*.go + gen/trans_ext17.go on every run — equals the hand-written model function the theorems
+   above are about.  Conventions: a string is the list of its bytes; Go int is an unbounded Z; byte arithmetic wraps
+   (wrap 8); utf8.RuneCountInString / DecodeRuneInString, range-over-string, []rune(s), string(runes) and strings.Repeat are
+   the models of Lib/GoSemStd.v / Lib/GoSemStr.v over Lib/Utf8.v (the UTF-8 model of the hand-written models; Repeat:
+   panics for a negative count, an int overflow of the output length, an output above runtime.maxAlloc = 2^48).
+   [to_M] reads the model's result in the monad of generated code (Ret / Panic / Stuck = NoFuel).
+   - Len, UcFirst, LcFirst: for EVERY list of integers;
+   - SubByDisplay: for every list, every limit and EVERY fuel, against the model's loop run on the same fuel; the model's
+     own fuel is S (length s) (sub_by_display_fuel (S (length s)) = sub_by_display by definition);
+   - Rev: for every list and every fuel above the number of runes (S (length s) suffices);
+   - Sub, Mask: for every fuel, on the domain where no int expression of the code leaves the int64 range (the hand model
+     wraps start+length, l-start, l-start-end, l-end at 64 bits; the translation does not): [sub_no_wrap], [mask_no_wrap]
+     say exactly that; sufficient: -2^63 <= start+length < 2^63 (Sub); len(str) <= MaxInt and 0 <= start, 0 <= end (Mask:
+     the domain of c17_mask_spec). *)
+Theorem c17_code_is_model :
+  (forall s, g_Len s = GoSem.Ret (len s)) /\
+  (forall s, g_UcFirst s = GoSem.Ret (uc_first s)) /\
+  (forall s, g_LcFirst s = GoSem.Ret (lc_first s)) /\
+  (forall fuel s start length_, sub_no_wrap start length_ -> g_Sub fuel s start length_ = to_M (sub_fuel fuel s start length_)) /\
+  (forall s start length_, sub_fuel (S (length s)) s start length_ = sub s start length_) /\
+  (forall start length_, - two63 <= start + length_ < two63 -> sub_no_wrap start length_) /\
+  (forall fuel str msk start end_, mask_no_wrap str start end_ ->
+     g_Mask fuel str msk start end_ = to_M (mask_fuel fuel str msk start end_)) /\
+  (forall str msk start end_, mask_fuel (S (length str)) str msk start end_ = mask str msk start end_) /\
+  (forall str start end_, Strs.zlen str <= maxint -> 0 <= start -> 0 <= end_ -> mask_no_wrap str start end_) /\
+  (forall fuel s limit, g_SubByDisplay fuel s limit = to_M (sub_by_display_fuel fuel s limit)) /\
+  (forall s limit, sub_by_display_fuel (S (length s)) s limit = sub_by_display s limit) /\
+  (forall fuel s, (length (runes s) < fuel)%nat -> g_Rev fuel s = GoSem.Ret (rev_str s)) /\
+  (forall s, g_Rev (S (length s)) s = GoSem.Ret (rev_str s)).
+Proof.
+  exact (conj code_Len (conj code_UcFirst (conj code_LcFirst (conj code_Sub_fuel (conj sub_fuel_model (conj sub_no_wrap_dom
+        (conj code_Mask_fuel (conj mask_fuel_model (conj mask_no_wrap_dom (conj code_SubByDisplay_fuel
+        (conj sub_by_display_fuel_model (conj code_Rev_fuel code_Rev)))))))))))).
+Qed.
+Print Assumptions c17_code_is_model.
+
+(* the case interpreter of the correspondence run, ops 0 (Mask), 1 (Sub), 2 (SubByDisplay), 3 (Rev), 4 (Len), 8 (UcFirst),
+   9 (LcFirst) executed through the generated functions (Run/C17Code.v), gives the output of `entry` on every case: the
+   differential run of entry 0 against the compiled package is, for these ops, a run of the generated code *)
+Theorem c17_entry_runs_generated_code : forall sub args, entry_code sub args = entry sub args.
+Proof. exact entry_code_is_entry. Qed.
+Print Assumptions c17_entry_runs_generated_code.
